@@ -31,6 +31,8 @@
 (*   inm     inside World::maintain                                        *)
 (*   fault   a destructor has panicked in this world (C19): from then on   *)
 (*           leaks are allowed, double drops and stale reads are not       *)
+(*   resid   per storage: indices whose mask bit survived an interrupted   *)
+(*           purge of a dead entity (leaked, not destroyed: allowed)       *)
 (*                                                                         *)
 (* Freedom left where the properties leave it: which index/generation a    *)
 (* creation returns (only "fresh" C01 and "below the peak" C17), the       *)
@@ -62,6 +64,7 @@ W0(cfg) ==
     trk    |-> [s \in 1..cfg.S |-> IF Has(cfg, "trk") THEN cfg.trk[s] ELSE "none"],
     emit   |-> [s \in 1..cfg.S |-> TRUE],
     evq    |-> [s \in 1..cfg.S |-> <<>>],
+    resid  |-> [s \in 1..cfg.S |-> {}],
     lazyq  |-> <<>>, peak |-> 0, led |-> <<>>, zdes |-> 0, zret |-> 0,
     inm    |-> FALSE, fault |-> FALSE, tid |-> cfg.tid ]
 
@@ -218,9 +221,10 @@ ObsFlags(w, ev) ==
       joinBad == o.join # SortedById(nd)
       stBad == {p \in (1..Len(o.st)) \X (1..n) : o.st[p[1]].get[p[2]] # Cur(w, p[1], o.hs[p[2]])}
       maskBad == {s \in 1..Len(o.st) :
-                    SeqToSet(o.st[s].mask) # {h[1] : h \in DOMAIN w.comp[s]}
-                    \/ Len(o.st[s].mask) # Cardinality(DOMAIN w.comp[s])}
-      evBad == {s \in 1..Len(o.st) : Has(o.st[s], "evs") /\ ~EvMatch(w.evq[s], o.st[s].evs)}
+                    (SeqToSet(o.st[s].mask) \ w.resid[s]) # {h[1] : h \in DOMAIN w.comp[s]}
+                    \/ Len(o.st[s].mask) # Cardinality(SeqToSet(o.st[s].mask))}
+      evBad == IF ev.op = "Fault" THEN {}
+               ELSE {s \in 1..Len(o.st) : Has(o.st[s], "evs") /\ ~EvMatch(w.evq[s], o.st[s].evs)}
   IN   {F(AliveProp(w, ev), "is_alive mismatch", o.hs[i]) : i \in aliveBad}
   \cup {F("C02", "World::is_alive mismatch", o.hs[i]) : i \in wBad}
   \cup (IF joinBad THEN {F(AliveProp(w, ev), "entities join mismatch", o.join)} ELSE {})
@@ -482,10 +486,11 @@ DropWorld(w, ev) ==
       des == {c \in DOMAIN w.led : w.led[c] = "destroyed"} \cup held
       ret == {c \in DOMAIN w.led : w.led[c] = "returned"}
       nzheld == Cardinality({p \in (DOMAIN w.comp) \X w.issued : w.zst[p[1]] /\ p[2] \in DOMAIN w.comp[p[1]]})
-      P == IF w.fault THEN "C19" ELSE "C08"
+      faulted == w.fault \/ (Has(ev, "tfault") /\ ev.tfault)
+      P == IF faulted THEN "C19" ELSE "C08"
   IN [w |-> w,
       f |-> (IF L.anomalies # <<>> THEN {F(P, "double drop / drop of unknown value", L.anomalies)} ELSE {})
-       \cup (IF w.fault THEN {}   \* once a destructor has panicked leaks are allowed and L0's ledger is only a lower bound
+       \cup (IF faulted THEN {}   \* once a destructor has panicked leaks are allowed and L0's ledger is only a lower bound
              ELSE (IF SeqToSet(L.destroyed) # des THEN {F("C08", "destroyed set differs (extra, missing)", <<(SeqToSet(L.destroyed) \ des), (des \ SeqToSet(L.destroyed))>>)} ELSE {})
              \cup (IF SeqToSet(L.returned) # ret THEN {F("C08", "returned set differs (extra, missing)", <<(SeqToSet(L.returned) \ ret), (ret \ SeqToSet(L.returned))>>)} ELSE {})
              \cup (IF L.held # <<>> THEN {F("C08", "values leaked (still held after the world was dropped)", L.held)} ELSE {})
@@ -495,6 +500,40 @@ DropWorld(w, ev) ==
              \* destroyed by the library (the library may create and destroy Defaults of its own)
              \cup (IF L.zc # L.zlib + L.zharn \/ L.zharn # w.zret \/ L.zlib < w.zdes + nzheld
                    THEN {F("C08", "zero-sized component accounting (created, lib drops, expected at least, harness drops, expected)", <<L.zc, L.zlib, w.zdes + nzheld, L.zharn, w.zret>>)} ELSE {}))]
+
+\* ---------------------------------------------------------------------
+\* C19: a component destructor panicked inside ev.in (injected by the harness:
+\* the ev.k-th destructor call of that operation) and the panic was caught.
+\* The property allows the rest of the operation to be skipped and values to
+\* leak; it forbids that anything is destroyed twice (now or later) and that
+\* any lookup returns a destroyed value.  The monitor therefore re-bases the
+\* abstract state on what is observable after the fault - statuses from
+\* is_alive, storage contents from the full lookup sweep, the ledger from the
+\* instrumented one - and checks exactly those two things; afterwards the
+\* ordinary rules apply again to whatever the script does next.
+Fault(w, ev) ==
+  LET o == ev.obs  L == ev.ledger  n == Len(o.hs)
+      des == SeqToSet(L.destroyed)  ret == SeqToSet(L.returned)
+      seen(s) == {i \in 1..n : o.st[s].get[i] # <<>>}
+      newcomp(s) == [h \in {o.hs[i] : i \in seen(s)} |-> o.st[s].get[CHOOSE i \in seen(s) : o.hs[i] = h]]
+      exposed == {p \in (1..Len(o.st)) \X (1..n) : o.st[p[1]].get[p[2]] # <<>> /\ o.st[p[1]].get[p[2]][1] \in (des \cup ret)}
+      aliveH == {o.hs[i] : i \in {j \in 1..n : o.alive[j]}}
+      st2 == [h \in w.issued |-> IF h \in aliveH THEN (IF w.status[h] = "dead" THEN "live" ELSE w.status[h]) ELSE "dead"]
+      zombies == {h \in w.issued : w.status[h] = "dead" /\ h \in aliveH}
+  IN [w |-> [w EXCEPT !.fault = TRUE,
+                      !.status = st2,
+                      !.merged = IF ev.in = "MaintainBegin" THEN [h \in w.issued |-> TRUE] ELSE w.merged,
+                      !.comp = [s \in DOMAIN w.comp |-> IF s <= Len(o.st) THEN newcomp(s) ELSE w.comp[s]],
+                      !.resid = [s \in DOMAIN w.comp |-> IF s <= Len(o.st)
+                                                          THEN w.resid[s] \cup (SeqToSet(o.st[s].mask) \ {o.hs[i][1] : i \in seen(s)})
+                                                          ELSE w.resid[s]],
+                      !.led = LedSetAll(LedSetAll(w.led, des, "destroyed"), ret, "returned"),
+                      !.evq = [s \in DOMAIN w.comp |-> <<>>],
+                      !.inm = FALSE],
+      f |-> {F("C19", "a lookup returns a value that was already destroyed / handed back (storage, handle, value)",
+               <<p[1], o.hs[p[2]], o.st[p[1]].get[p[2]]>>) : p \in exposed}
+       \cup (IF L.anomalies # <<>> THEN {F("C19", "a value was destroyed twice", L.anomalies)} ELSE {})
+       \cup {F("C19", "a dead entity is alive again after the fault", h) : h \in zombies}]
 
 \* a panic escaping library code where none is allowed
 PanicProp(w, ev) ==
@@ -523,6 +562,7 @@ Dispatch(w, ev) ==
     [] ev.op = "WOp"           -> WOp(w, ev)
     [] ev.op = "DropWorld"     -> DropWorld(w, ev)
     [] ev.op = "Panic"         -> Panic(w, ev)
+    [] ev.op = "Fault"         -> Fault(w, ev)
     [] ev.op = "Nop"           -> [w |-> w, f |-> {}]
 
 \* Step: returns [w, f] with f a set of <<property, message, detail>>
